@@ -113,6 +113,6 @@ def inproc_ep_queries(tier):
     return qs
 
 MANIFEST = {
-    "text": "Kernels of the real core: the pipe event filter delivers a strictly ordered, at-most-once subsequence of ADD_PRE/ADD_POST/REM_POST for every submission sequence of length 5; one redial back-off step for any reconnect times and any random number stays below the larger configured time without overflow; dialer_connect_cb / listener_accept_cb re-arm for every result code except close/cancel/stop. Also: dialer_start_pipe / listener_start_pipe (ADD_PRE, then pipe_start, then ADD_POST; a pipe closed inside ADD_PRE or refused by the protocol for ANY error code is never started / announced; the dialer records its one pipe and resets the back-off), nni_pipe_remove (lists, redial kick only for the dialer's current pipe, closing socket woken) and the end of a pipe in the real core/pipe.c (close idempotent; reaper order protocol close, transport close, REM_POST, unregister, stops, socket told last; destroyed exactly once when the last reference is gone). Also nng_pipe_notify registration (real nni_sock_set_pipe_cb: any sequence of set / clear calls for any event number, one removal in the middle of a pipe's life) against the event filter: exactly the events that have a callback when they happen are delivered; tcp / ipc listener handshakes that fail because the peer hung up (NNG_ECLOSED from the stream) are reported as connection failures; inproc connections whose pipe the core could not complete.",
+    "text": "Kernels of the real core: the pipe event filter delivers a strictly ordered, at-most-once subsequence of ADD_PRE/ADD_POST/REM_POST for every submission sequence of length 5; one redial back-off step for any reconnect times and any random number stays below the larger configured time without overflow; dialer_connect_cb / listener_accept_cb re-arm for every result code except close/cancel/stop. Also: dialer_start_pipe / listener_start_pipe (ADD_PRE, then pipe_start, then ADD_POST; a pipe closed inside ADD_PRE or refused by the protocol for ANY error code is never started / announced; the dialer records its one pipe and resets the back-off), nni_pipe_remove (lists, redial kick only for the dialer's current pipe, closing socket woken) and the end of a pipe in the real core/pipe.c (close idempotent; reaper order protocol close, transport close, REM_POST, unregister, stops, socket told last; destroyed exactly once when the last reference is gone). Also nng_pipe_notify registration (real nni_sock_set_pipe_cb: any sequence of set / clear calls for any event number, one removal in the middle of a pipe's life) against the event filter: exactly the events that have a callback when they happen are delivered; tcp / ipc listener handshakes that fail because the peer hung up (NNG_ECLOSED from the stream) are reported as connection failures; inproc connections whose pipe the core could not complete. The dialing endpoint of the tcp / ipc transports (real *_ep_connect, *_dial_cb, nego, match, cancel, close): the connect request core/dialer.c posts completes exactly once, with a code that lets the dialer redial after every failure that is not its own close; while it is pending a dial or a handshake is in progress.",
     "note": "Only the per-step behaviour is decided; ordering across the reaper thread and real reconnect timing are outside (stated).",
 }
